@@ -83,7 +83,7 @@ def run(rep, prog, tier):
             if isinstance(k, tuple) and len(k) > 1 and k[0] == 'opq' and isinstance(k[1], str) and k[1].startswith('np.'): return k[1][3:]
             try: return Poly(dict(k[1:])).as_atom()[0]
             except Exception: return None
-        okC = head(fields.get('C')) == 'eye'
+        okC = head(fields.get('C')) in ('eye', 'identity')
         okD = head(fields.get('D')) == 'zeros'
         rep.ob('R12.wiring', 'solver:model', bool(okA and okC and okD), f"StateSpaceModel(A=ssm.A: {fields.get('A') == A_k}, B=ssm.B: {fields.get('B') == B_k}, C=identity: {okC}, D=zeros: {okD})", site)
         want_u = tkey(Poly.atom(('T', tkey(u)))) if u is not None else None
@@ -106,26 +106,34 @@ def run(rep, prog, tier):
             ok = repr(tkey(sp))[:-1] in k or tkey(sp) == tkey(t[1]) or _inside(tkey(sp), tkey(t[1]))
             if not ok and not has_opaque(t[1]): ok = False
         rep.ob('R12.wiring', f'get_{q}', ok, f'= {t!r:.260}', prog.site(memg[0], memg[1]))
-    # ---- continuous solver wrapper
+    # ---- continuous solver wrapper: lsim(StateSpace(A, B, C, D) | (A, B, C, D), U=u, T=t[, X0=x0]) for the model / series it is given
+    from ..terms import Rec as _Rec
     g = prog.func('SignalProcessing.state_space_model', 'continuous_state_space_solver')
+    evs = new_ev(prog)
     ps = [a.arg for a in g.node.args.args]
-    ssc = [n for n in ast.walk(g.node) if isinstance(n, ast.Call) and ast.unparse(n.func).endswith('StateSpace')]
-    ls = [n for n in ast.walk(g.node) if isinstance(n, ast.Call) and ast.unparse(n.func).endswith('lsim')]
-    if ssc and ps:
-        want = [f'{ps[0]}.{x}' for x in 'ABCD']
-        got = [ast.unparse(x) for x in ssc[0].args]
-        rep.ob('R12.wiring', 'StateSpace(A,B,C,D)', got == want, f'StateSpace({", ".join(got)})', g.site)
-    else:
-        rep.ob('R12.wiring', 'StateSpace(A,B,C,D)', None, 'StateSpace call not found', g.site)
-    if ls and len(ps) >= 3:
-        got = [ast.unparse(x) for x in ls[0].args] + [f'{k.arg}={ast.unparse(k.value)}' for k in ls[0].keywords]
-        sysname = None
-        for st in g.node.body:
-            if isinstance(st, ast.Assign) and isinstance(st.value, ast.Call) and ast.unparse(st.value.func).endswith('StateSpace') and isinstance(st.targets[0], ast.Name): sysname = st.targets[0].id
-        ok = got[:3] == [sysname, ps[1], ps[2]] or got[:3] == [sysname, f'U={ps[1]}', f'T={ps[2]}']
-        rep.ob('R12.wiring', 'lsim(sys,u,t)', ok, f'lsim({", ".join(got)})', g.site)
-    else:
+    t = evs.call_fn(g.node, g.mod, [A(p) for p in ps], {}, {'__parent__': None}, 1)
+    def find_ext(k, name):
+        if isinstance(k, tuple):
+            if len(k) >= 4 and k[0] == 'call' and isinstance(k[1], tuple) and k[1][:1] == ('ext',) and k[1][1].split('.')[-1] == name: return k
+            for x in k:
+                r = find_ext(x, name)
+                if r is not None: return r
+        return None
+    ls = find_ext(tkey(t), 'lsim')
+    if ls is None or len(ps) < 3:
+        rep.ob('R12.wiring', 'StateSpace(A,B,C,D)', None, f'lsim call not found in {t!r:.120}', g.site)
         rep.ob('R12.wiring', 'lsim(sys,u,t)', None, 'lsim call not found', g.site)
+    else:
+        pos = list(ls[2]); kw = dict(ls[3])
+        names = ['system', 'U', 'T', 'X0']
+        amap = {names[i]: a for i, a in enumerate(pos) if i < 4}; amap.update(kw)
+        sysk = amap.get('system')
+        ssk = find_ext(sysk, 'StateSpace') if sysk is not None else None
+        mats = list(ssk[2]) if ssk is not None else (list(sysk[1]) if isinstance(sysk, tuple) and sysk[:1] == ('tuple',) else None)
+        want = [tkey(evs.getattr(A(ps[0]), x, g.mod, 0)) for x in 'ABCD']
+        rep.ob('R12.wiring', 'StateSpace(A,B,C,D)', (mats == want) if mats is not None else None, 'the system handed to lsim is (A, B, C, D) of the model, in this order', g.site)
+        oku = amap.get('U') == tkey(A(ps[1])) and amap.get('T') == tkey(A(ps[2]))
+        rep.ob('R12.wiring', 'lsim(sys,u,t)', bool(oku), 'lsim(system, U=<input series>, T=<time grid>)', g.site)
 
 
 def solver_call_args(prog):
